@@ -65,7 +65,7 @@ fn main() {
                 }
             }
             for _ in 0..n {
-                let (cap, g0, progs) = ebr::gen_program(&mut rng, thorough);
+                let (cap, g0, progs) = if rng.chance(1, 12) { ebr::gen_burst_program(&mut rng) } else { ebr::gen_program(&mut rng, thorough) };
                 let (line, mon) = ebr::run_case(cap, g0, &progs, &mut rng, ebr::Sched::Random);
                 o.line(&line);
                 for m in mon {
